@@ -147,7 +147,7 @@ func (p *Pool) Find(id string) []*Seen {
 	return out
 }
 
-// SetHealth sets the /healthz status of an upstream (200 healthy, 500 unhealthy, 0 hang up, -1 accept and never answer).
+// SetHealth sets the /healthz status of an upstream (200 healthy, 500 unhealthy, 0 hang up, -1 accept and never answer, -2 answer 200 and stall in the body).
 func (u *Upstream) SetHealth(status int) { atomic.StoreInt32(&u.healthy, int32(status)) }
 
 // Probes returns the arrival times of /healthz probes.
@@ -170,6 +170,15 @@ func (u *Upstream) serve(w http.ResponseWriter, r *http.Request) {
 		u.probes = append(u.probes, time.Now())
 		u.mu.Unlock()
 		st := int(atomic.LoadInt32(&u.healthy))
+		if st == -2 {
+			// the response starts (status line and headers reach the prober) and then the body stalls
+			w.WriteHeader(200)
+			if f, ok := w.(http.Flusher); ok {
+				f.Flush()
+			}
+			<-r.Context().Done()
+			return
+		}
 		if st < 0 {
 			// the probe is accepted and never answered (a hung upstream): wait for the prober to give up
 			<-r.Context().Done()
